@@ -10,7 +10,12 @@
        RemoveAttr  the attribute goes, with the comments attached to it, nothing else
        AppendBlock a new empty block at the end of the body
        RemoveBlock the block goes, with its lead comments and everything inside
+       SetAttrRaw  as SetAttr, the expression given as raw tokens (the caller's token buffer is its own: it may reuse it)
+       Clear       everything in the body goes
    at the top level or inside a block (path).  Formatting is an action that leaves the abstract body unchanged.
+   The same abstract body can be laid out in many ways (Layouts): a comment between a block's type and its labels, a byte order
+   mark in front, no line end after the last item, empty and one-attribute blocks on one line, CRLF line ends; the guarantees hold
+   for every layout.
    The byte-level clauses (token stream = input modulo tabs, formatting touches only blanks and is idempotent,
    formatted file parses and decodes the same) are contracts on recorded outputs: the harness measures, the
    specification says what must hold (Contracts). *)
@@ -40,6 +45,8 @@ vars == <<doc, hist>>
 CONSTANTS MaxEdits
 Names == {"a", "b", "n"}
 NewExprs == {"v7", "vs", "list", "vt"}
+RawExprs == {"rt", "ru"}
+Layouts == {"plain", "midnote", "bom", "noeol", "oneline", "crlf"}
 Step(o) == hist' = Append(hist, o) /\ Len(hist) < MaxEdits
 (* path: 0 = the file's top-level body, j > 0 = the body of its j-th block *)
 At(path) == IF path = 0 THEN doc ELSE doc[NthBlock(doc, path)].body
@@ -52,7 +59,8 @@ PutOf(d, path, b) == IF path = 0 THEN b ELSE [d EXCEPT ![NthBlock(d, path)].body
 EffectOf(d, o) ==
   CASE o.op = "Format" -> d
     [] o.path > NumBlocks(d) -> d                                  \* no such block: nothing to edit
-    [] o.op = "SetAttr" -> PutOf(d, o.path, SetIn(AtOf(d, o.path), o.name, o.expr))
+    [] o.op \in {"SetAttr", "SetAttrRaw"} -> PutOf(d, o.path, SetIn(AtOf(d, o.path), o.name, o.expr))
+    [] o.op = "Clear" -> PutOf(d, o.path, <<>>)
     [] o.op = "RemoveAttr" -> PutOf(d, o.path, RemoveIn(AtOf(d, o.path), o.name))
     [] o.op = "AppendBlock" -> PutOf(d, o.path, AppendBlockIn(AtOf(d, o.path), o.type, o.labels))
     [] o.op = "RemoveBlock" -> IF o.j \in 1..NumBlocks(AtOf(d, o.path)) THEN PutOf(d, o.path, Without(AtOf(d, o.path), NthBlock(AtOf(d, o.path), o.j))) ELSE d
@@ -61,16 +69,20 @@ SetAttr(path, n, e) == Do([op |-> "SetAttr", path |-> path, name |-> n, expr |->
 RemoveAttr(path, n) == Do([op |-> "RemoveAttr", path |-> path, name |-> n])
 AppendBlock(path, t, labels) == Do([op |-> "AppendBlock", path |-> path, type |-> t, labels |-> labels])
 RemoveBlock(path, j) == j \in 1..NumBlocks(At(path)) /\ Do([op |-> "RemoveBlock", path |-> path, j |-> j])
+SetAttrRaw(path, n, e) == Do([op |-> "SetAttrRaw", path |-> path, name |-> n, expr |-> e])
+Clear(path) == Do([op |-> "Clear", path |-> path])
 Format == Do([op |-> "Format"])
 Next == \/ \E p \in Paths : \/ \E n \in Names, e \in NewExprs : SetAttr(p, n, e)
                             \/ \E n \in Names : RemoveAttr(p, n)
                             \/ \E t \in {"blk", "srv"}, ls \in {<<>>, <<"y">>} : AppendBlock(p, t, ls)
                             \/ \E j \in 1..2 : RemoveBlock(p, j)
+                            \/ \E n \in {"a", "b"}, e \in RawExprs : SetAttrRaw(p, n, e)
+                            \/ Clear(p)
         \/ Format
 
 (* ---------------------------------------------------------------- what every edit guarantees (checked on the model) *)
 (* an edit at one path leaves every other top-level item, and every item of the edited body except its target, as it was *)
-Target(o) == IF o.op \in {"SetAttr", "RemoveAttr"} THEN o.name ELSE ""
+Target(o) == IF o.op \in {"SetAttr", "SetAttrRaw", "RemoveAttr"} THEN o.name ELSE ""
 OthersKept == [][LET o == hist'[Len(hist')] IN
                   /\ (o.op = "Format" => doc' = doc)
                   /\ (o.op # "Format" /\ o.path > 0 =>
@@ -78,12 +90,13 @@ OthersKept == [][LET o == hist'[Len(hist')] IN
                         /\ Len(doc') = Len(doc)
                         /\ \A m \in 1..Len(doc) : m # i => doc'[m] = doc[m]
                         /\ doc'[i].type = doc[i].type /\ doc'[i].labels = doc[i].labels /\ doc'[i].lead = doc[i].lead)
-                  /\ (o.op \in {"SetAttr", "RemoveAttr"} =>
+                  /\ (o.op \in {"SetAttr", "SetAttrRaw", "RemoveAttr"} =>
                         LET before == At(o.path)
                             after == IF o.path = 0 THEN doc' ELSE doc'[NthBlock(doc, o.path)].body
                             keep(b) == SelectSeq(b, LAMBDA x : ~IsAttr(x, o.name))
                         IN keep(after) = keep(before))                       \* every other item, in order, untouched
-                  /\ (o.op = "SetAttr" => LET after == IF o.path = 0 THEN doc' ELSE doc'[NthBlock(doc, o.path)].body IN
+                  /\ (o.op = "Clear" => (IF o.path = 0 THEN doc' ELSE doc'[NthBlock(doc, o.path)].body) = <<>>)
+                  /\ (o.op \in {"SetAttr", "SetAttrRaw"} => LET after == IF o.path = 0 THEN doc' ELSE doc'[NthBlock(doc, o.path)].body IN
                         /\ HasAttr(after, o.name) /\ after[AttrIdx(after, o.name)].expr = o.expr
                         /\ (HasAttr(At(o.path), o.name) =>               \* an existing attribute keeps its place and its comments
                               /\ AttrIdx(after, o.name) = AttrIdx(At(o.path), o.name)
